@@ -53,7 +53,8 @@ func lexSQL(s string) ([]sqlTok, error) {
 		case c == ' ' || c == '\t' || c == '\n' || c == '\r' || c == '\f':
 			i++
 		case c == '-' && i+1 < len(s) && s[i+1] == '-':
-			for i < len(s) && s[i] != '\n' {
+			// scan.l: comment = "--"{non_newline}*, non_newline = [^\n\r]: a carriage return ends the comment too
+			for i < len(s) && s[i] != '\n' && s[i] != '\r' {
 				i++
 			}
 			out = append(out, sqlTok{"comment", ""})
@@ -208,6 +209,24 @@ func translateToSQL(q string, params map[string]any) (sqlText string, rerr error
 	return translate.Translated(res)
 }
 
+// driverStatement is what drivers/pg sends: translate.FromCypher (Cypher text as a leading comment + statement).
+func driverStatement(q string) (sqlText string, rerr error) {
+	defer func() {
+		if r := recover(); r != nil {
+			sqlText, rerr = "", fmt.Errorf("PANIC: %v", r)
+		}
+	}()
+	model, err := frontend.ParseCypher(frontend.NewContext(), q)
+	if err != nil {
+		return "", err
+	}
+	formatted, err := translate.FromCypher(context.Background(), model, newKindMapper(), false, translate.DefaultGraphID)
+	if err != nil {
+		return "", err
+	}
+	return formatted.Statement, nil
+}
+
 func TestVerifBoundedSQLText(t *testing.T) {
 	maxLen := 2
 	if v, err := strconv.Atoi(os.Getenv("VERIF_BOUND")); err == nil && v > 0 {
@@ -256,6 +275,12 @@ func TestVerifBoundedSQLText(t *testing.T) {
 		}, "free"},
 		{"count alias of the aggregate traversal shape", func(v string) (string, map[string]any) {
 			return "match (n:NodeKind1) match (n)-[:EdgeKind1*1..]->(m:NodeKind2) with n, count(m) as " + cyBacktick(v) + " return n, " + cyBacktick(v) + " order by " + cyBacktick(v) + " desc limit 5", nil
+		}, "free"},
+		{"result alias inside an order by expression", func(v string) (string, map[string]any) {
+			return "match (n) return n.name as " + cyBacktick(v) + " order by toLower(" + cyBacktick(v) + ")", nil
+		}, "free"},
+		{"result alias in a parenthesised order by key", func(v string) (string, map[string]any) {
+			return "match (n) return n.name as " + cyBacktick(v) + " order by (" + cyBacktick(v) + ") + 'x' desc", nil
 		}, "free"},
 		{"variable name", func(v string) (string, map[string]any) {
 			return "match (" + cyBacktick(v) + ") return " + cyBacktick(v), nil
@@ -359,6 +384,15 @@ func TestVerifBoundedSQLText(t *testing.T) {
 					report(class, pos.name, "value %q changes the token structure of the statement: %s", v, sql)
 					continue
 				}
+				// the statement the PostgreSQL driver actually sends (translate.FromCypher: the query echoed as a SQL
+				// comment, then the statement): outside comments it must be the statement checked above
+				if driverSQL, derr := driverStatement(q); derr == nil {
+					if dtoks, dlerr := lexSQL(driverSQL); dlerr != nil {
+						report(class, pos.name, "value %q: the statement built for the driver does not lex (%v): %q", v, dlerr, driverSQL)
+					} else if skeleton(dtoks) != refSkel {
+						report(class, pos.name, "value %q changes the token structure of the statement built for the driver (echoed query text escapes its comment?): %q", v, driverSQL)
+					}
+				}
 				if pos.want == "free" {
 					continue
 				}
@@ -391,6 +425,9 @@ func TestVerifBoundedSQLText(t *testing.T) {
 			fmt.Fprintf(os.Stderr, "phase %s: %d cases, %v\n", name, cases+x.cases-c0, time.Since(t0))
 		}
 	}
+	// line breaks of every kind PostgreSQL ends a -- comment with (and ones it does not), alone and mixed with quotes
+	lineBreaks := []string{"\r", "\n", "\r\n", "a\rb", "a\nb", "\r; drop table node; --", "\n; drop table node; --", "x\r'; select 1; --", "\u2028", "\u0085", "\v", "\f", "\r\r", "'\r'"}
+	phase("line breaks", func() { sweep("line-breaks", lineBreaks) })
 	phase("long values", func() { sweep("long-values", longValues) })
 	phase("long values in traversal text", func() { x.fragmentSweep("long-values", xLongFragmentValues(), false) })
 	phase("long lists", func() { x.listSweep("long-lists") })
